@@ -161,7 +161,7 @@ Fixpoint gap_loop (q : rpq) (fuel : nat) (t : Z) (findEnd : bool) (st : Z) (acc 
 
 Definition gap_blocks_w (q : rpq) : option (list (Z * Z)) :=
   if size q =? 0 then Some []
-  else gap_loop q (Z.to_nat (64 * (nwords q + 2) + 4)) (wrap32 (cum q + 1)) false 0 [].
+  else gap_loop q (Z.to_nat (2 * wrap32 (tail q - cum q) + 4)) (wrap32 (cum q + 1)) false 0 [].
 
 Definition last_tsn_received (q : rpq) : option Z :=
   if size q =? 0 then None else Some (tail q).
